@@ -55,8 +55,8 @@ SPECS = [
     ("NETCODE_ADDRESS_IPV6", "renetcode/src/lib.rs", r"const NETCODE_ADDRESS_IPV6: u8 = ([0-9_]+);"),
     ("NETCODE_TOKEN_MAX_ADDRESSES", "renetcode/src/token.rs", r"pub server_addresses: \[Option<SocketAddr>; ([0-9_]+)\],"),
     ("NETCODE_GLOBAL_SEQUENCE_START_SHIFT", "renetcode/src/server.rs", r"global_sequence: 1 << ([0-9_]+),"),
-    ("TRANSPORT_SERVER_BUFFER", "renet_netcode/src/server.rs", r"buffer: \[0(?:u8)?; ([A-Za-z_0-9]+)\],", "sym"),
-    ("TRANSPORT_CLIENT_BUFFER", "renet_netcode/src/client.rs", r"buffer: \[0(?:u8)?; ([A-Za-z_0-9]+)\],", "sym"),
+    ("TRANSPORT_SERVER_BUFFER", "renet_netcode/src/server.rs", r"buffer(?:: \w+)?\s*[:=]\s*(?:vec!)?\[0(?:u8)?; ([A-Za-z_0-9]+)\]", "sym"),
+    ("TRANSPORT_CLIENT_BUFFER", "renet_netcode/src/client.rs", r"buffer(?:: \w+)?\s*[:=]\s*(?:vec!)?\[0(?:u8)?; ([A-Za-z_0-9]+)\]", "sym"),
 ]
 
 def main():
